@@ -24,7 +24,7 @@ PY = sys.executable
 IDENT = re.compile(r"^[A-Za-z_][A-Za-z0-9_]*$")
 
 UNRELATED = ["mesh", "mesh3", "space", "coefficient", "constant", "argument", "element",
-             "quadelement"]
+             "quadelement", "index"]
 
 
 # --------------------------------------------------------------------------------------
@@ -275,7 +275,7 @@ def gen_history(seed, mode, thorough, hashseed):
     # counter-boundary targeting: place a power-of-ten boundary *inside* a request's own objects
     cnt = {"coefficient": 0, "constant": 0, "mesh": 0}
     CRE = {"mesh": (0, 0, 1), "mesh3": (0, 0, 1), "space": (0, 0, 1), "coefficient": (1, 0, 1),
-           "constant": (0, 1, 1), "argument": (0, 0, 1), "element": (0, 0, 0), "quadelement": (0, 0, 0)}
+           "constant": (0, 1, 1), "argument": (0, 0, 1), "element": (0, 0, 0), "quadelement": (0, 0, 0), "index": (0, 0, 0)}
 
     def account(kind, n):
         a, b, c = CRE[kind]
